@@ -10,7 +10,11 @@ open I3.SourcePin
 
 def modelled : List String := [
   "babyjub.Blake512",
-  "keccak256.Hash"
+  "keccak256.<decls>@keccac256.go",
+  "keccak256.Hash",
+  "babyjub.<decls>@babyjub.go",
+  "babyjub.<decls>@eddsa.go",
+  "babyjub.<decls>@helpers.go"
 ]
 
 theorem source_pinned : modelled.all (same I3.Gen.fingerprints) = true := by decide +kernel
@@ -18,6 +22,6 @@ theorem source_pinned : modelled.all (same I3.Gen.fingerprints) = true := by dec
 theorem function_set_pinned : (["babyjub.", "keccak256."] : List String).all (sameKeys I3.Gen.fingerprints) = true := by
   decide +kernel
 
-theorem modelled_nonempty : 2 = modelled.length := by decide
+theorem modelled_nonempty : 6 = modelled.length := by decide
 
 end I3.Props.C20
